@@ -5,7 +5,7 @@ cd "$HERE/lean" || exit 2
 lake build 2>&1 | tail -5
 /venv/bin/python "$HERE/harness/translate_cvn.py" "${PYEMV_REPO:-/repo}" "$HERE/lean/PyemvGen/CvnGen.lean" && \
 /venv/bin/python "$HERE/harness/translate_py.py" "${PYEMV_REPO:-/repo}" "$HERE/lean/PyemvGen/ModGen.lean" && \
-/venv/bin/python "$HERE/harness/translate_tlv.py" "${PYEMV_REPO:-/repo}" "$HERE/lean/PyemvGen/TlvGen.lean" && lake build PyemvGen 2>&1 | tail -2
+/venv/bin/python "$HERE/harness/translate_tlv.py" "${PYEMV_REPO:-/repo}" "$HERE/lean/PyemvGen/TlvGen.lean" && lake build PyemvGen PyemvGen.TlvSourceBoth PyemvGen.CvnSource $(ls PyemvGen/Src/*.lean | sed 's/\.lean$//; s#/#.#g') 2>&1 | tail -2
 test -x .lake/build/bin/pyemv-model || { echo "setup: driver not built"; exit 2; }
 /venv/bin/python -c "import cryptography" || { echo "setup: /venv/bin/python lacks cryptography"; exit 2; }
 echo "setup ok"
